@@ -169,7 +169,8 @@ def cause(d, c1, ck, tag):
 
 
 def corpus_cases(tier):
-    optsets = [{}, {"version": 1.2, "wrap": True}, {"version": 2, "wrap": False, "fmt": "%.3f", "mnemonics_header": True}]
+    optsets = [{}, {"version": 1.2, "wrap": True}, {"version": 2, "wrap": False, "fmt": "%.3f", "mnemonics_header": True},
+               {"column_fmt": {"0": "%.1f"}}, {"fmt": "%.0f"}]  # an index format coarser than the file's own index values
     for f in inputs.corpus_files():
         for o in optsets:
             for rk in ({}, {"mnemonic_case": "preserve"}):
